@@ -1,5 +1,10 @@
 package main
 
+import (
+	"go/ast"
+	"go/types"
+)
+
 func init() {
 	register(&PropDef{
 		ID:    "X00",
@@ -114,4 +119,131 @@ func init() {
 			{Name: "sub-zero-left-shortcut", File: "fast/binary_ops.go", Old: "\t\tif isLiteralNumber(y, 0) {\n\t\t\treturn xe\n\t\t}\n\n\t\tswitch k {\n\t\tcase xr.Int:\n\n\t\t\tx := x.(func(*Env) int)\n\t\t\ty := int(xr.ValueOf(y).Int())\n\t\t\tfun = func(env *Env) int {\n\t\t\t\treturn x(env) - y", New: "\t\tif isLiteralNumber(y, 1) {\n\t\t\treturn xe\n\t\t}\n\n\t\tswitch k {\n\t\tcase xr.Int:\n\n\t\t\tx := x.(func(*Env) int)\n\t\t\ty := int(xr.ValueOf(y).Int())\n\t\t\tfun = func(env *Env) int {\n\t\t\t\treturn x(env) - y"},
 		},
 	})
+}
+
+func init() {
+	register(&PropDef{ID: "X02", Title: "dev: dump stmt return shapes", Rules: []func(*Ctx){func(c *Ctx) {
+		pk := c.P.Pkg("fast")
+		info := pk.TypesInfo
+		seen := map[string]int{}
+		first := map[string]string{}
+		for _, f := range pk.Syntax {
+			ast.Inspect(f, func(n ast.Node) bool {
+				fl, ok := n.(*ast.FuncLit)
+				if !ok || !isStmtSig(info.TypeOf(fl)) {
+					return true
+				}
+				cz := newCanonizer(info, c.P.Fset, nil, nil, fl)
+				cz.sig(fl.Type)
+				ast.Inspect(fl.Body, func(n ast.Node) bool {
+					if inner, ok := n.(*ast.FuncLit); ok && inner != fl {
+						return false
+					}
+					switch x := n.(type) {
+					case *ast.ReturnStmt:
+						s := "RET " + cz.exprs(x.Results)
+						seen[s]++
+						if first[s] == "" {
+							first[s] = c.pos(x)
+						}
+					case *ast.AssignStmt:
+						if len(x.Lhs) == 1 {
+							if sel, ok := x.Lhs[0].(*ast.SelectorExpr); ok && sel.Sel.Name == "IP" {
+								s := "SET " + cz.stmt(x)
+								seen[s]++
+								if first[s] == "" {
+									first[s] = c.pos(x)
+								}
+							}
+						}
+					case *ast.IncDecStmt:
+						s := "INC " + cz.stmt(x)
+						seen[s]++
+						if first[s] == "" {
+							first[s] = c.pos(x)
+						}
+					}
+					return true
+				})
+				return true
+			})
+		}
+		for _, k := range sortedKeys(seen) {
+			println(seen[k], k, "   @", first[k])
+		}
+	}}})
+}
+
+func isStmtSig(t types.Type) bool {
+	sig, ok := t.(*types.Signature)
+	if !ok || sig.Params().Len() != 1 || sig.Results().Len() != 2 {
+		return false
+	}
+	return isEnvPtr(sig.Params().At(0).Type()) && isNamedType(sig.Results().At(0).Type(), "fast", "Stmt") && isEnvPtr(sig.Results().At(1).Type())
+}
+
+func init() {
+	register(&PropDef{ID: "X03", Title: "dev: S1", Rules: []func(*Ctx){func(c *Ctx) { ruleStmtProtocol(c, "fast", nil, "S1-stmt-protocol") }}})
+}
+
+// ---------------------------------------------------------------- C02
+
+var c02Files = []string{"var_ops.go", "var_set.go", "var_set_value.go", "var_shifts.go", "place_ops.go", "place_set.go", "place_shifts.go", "place_set_value.go", "place_get.go", "assignment.go"}
+
+func c02Rules(c *Ctx) {
+	ruleUniformity(c, "fast", c02Files, "U-uniform")
+	ruleDepth(c, "fast", c02Files, "A3-depth", "A4-storage")
+	opOf := ruleDispatchTables(c, "fast", []string{"fast.Comp.setVar", "fast.Comp.setPlace"}, "A5")
+	ruleOperatorAnchor(c, "fast", opOf, "A5-operator", "A6-order", nil)
+	ext := extendOps(c, "fast", opOf)
+	ruleShortcuts(c, "fast", ext, "A7-shortcut", nil)
+	helpers := map[string]string{}
+	for fn, op := range ext {
+		if _, direct := opOf[fn]; !direct {
+			helpers[funcFullName(fn)] = op
+		}
+	}
+	rulePow2(c, "fast", helpers, "A8-pow2")
+	ruleStmtProtocol(c, "fast", c02Files, "S1-stmt-protocol")
+	ruleAssignPhases(c)
+	ruleOperandOnce(c, []string{"place_ops.go", "place_set.go", "place_shifts.go", "place_set_value.go", "var_ops.go", "var_set.go", "var_shifts.go", "var_set_value.go"}, "E2-once")
+	ruleIncDec(c)
+	ruleIntsGuard(c, "fast", "A4-ints-guard")
+	ruleAccessorFiles(c, "fast", c02Files, "A2-accessor")
+	c.Floor("U-uniform", 2400)
+	c.Floor("A3-depth", 1900)
+	c.Floor("A4-storage", 1800)
+	c.Floor("A5-operator", 1800)
+	c.Floor("A6-order", 1800)
+	c.Floor("S1-stmt-protocol", 2000)
+	c.Floor("E2-once", 2000)
+}
+
+func init() {
+	register(&PropDef{
+		ID:    "C02",
+		Title: "Assignments and compound assignments on every kind of place behave as in Go",
+		Explanation: "Decided, exhaustively over the ~4 000 statement closures of var_*.go / place_*.go / assignment.go: U sibling uniformity per kind-family; A3 slot accessed on the frame its depth arm names; A4 Ints/Vals storage matches the IntBind guard and every function that addresses a variable's unboxed slot is entered only for IntBind variables (in-function arm, early return, or every call site under a class test); A2 accessor category; " +
+			"A5 setVar/setPlace dispatch tables injective and complete (every specialisation with the family signature is wired) and each closure applies exactly the Go operator of its arm; A6 right operand from the value parameter, left from the place; A7 constant shortcuts are identities for every category that reaches them; A8 power-of-two division shapes; " +
+			"S1 every statement closure returns Code[IP] of the environment it returns after exactly one advance of IP (or Code[t] after IP = t) on every path; E2 every captured operand closure (place, map key, right-hand side) is evaluated at most once per path; " +
+			"P1-P4 two-phase multiple assignment: left operands, then right-hand expressions (copied with dup), then stores, map keys copied, two-place fast path only without map keys; I1 ++/-- compile as += / -= the constant one. " +
+			"Not decided: which specialisation is selected for a given program (Place construction), map-element read-modify-write inside reflect, exotic evaluation-order mixes beyond the call-order rule.",
+		Assumptions: []string{"Go operator semantics on basic types", "computation at the category's widest type followed by a truncating store equals computation at the narrow type (two's complement)", "reflect Set*/MapIndex/SetMapIndex as documented"},
+		Rules:       []func(*Ctx){c02Rules},
+		Mutants: []Mutant{
+			{Name: "uint16-xor-depth2-uses-depth1", File: "fast/var_ops.go", Old: "*(*uint16)(unsafe.Pointer(&env.\n\t\t\t\t\t\tOuter.Outer.Ints[index])) ^= fun(env)", New: "*(*uint16)(unsafe.Pointer(&env.\n\t\t\t\t\t\tOuter.Ints[index])) ^= fun(env)", Canary: true},
+			{Name: "sub-becomes-add-boxed-int", File: "fast/var_ops.go", Old: "lhs.SetInt(lhs.Int() - int64(val))", New: "lhs.SetInt(lhs.Int() + int64(val))", Nth: 1, Canary: true},
+			{Name: "ip-not-advanced", File: "fast/var_set.go", Old: "= val\n\n\t\t\t\t\t\tenv.IP++\n\t\t\t\t\t\treturn env.Code[env.IP], env", New: "= val\n\n\t\t\t\t\t\treturn env.Code[env.IP], env", Nth: 1},
+			{Name: "map-key-evaluated-twice", File: "fast/place_ops.go", Old: "lhs.SetMapIndex(key, xr.ValueOf(result))", New: "lhs.SetMapIndex(keyfun(env), xr.ValueOf(result))", Nth: 30},
+			{Name: "stores-before-rhs", File: "fast/assignment.go", Old: "val1 := dup(efuns[1](env))\n\t\t\t\tassign[0].setvar(env, val0)", New: "assign[0].setvar(env, val0)\n\t\t\t\tval1 := dup(efuns[1](env))"},
+			{Name: "key-copy-dropped", File: "fast/assignment.go", Old: "if tmp = a.placekey(env); tmp.CanSet() {\n\t\t\t\ttmp = tmp.Convert(tmp.Type())\n\t\t\t}\n\t\t\tkeys[i] = tmp", New: "keys[i] = a.placekey(env)"},
+			{Name: "intbinds-arms-swapped", File: "fast/var_set.go", Old: "intbinds := va.Desc.Class() == IntBind", New: "intbinds := va.Desc.Class() != IntBind", Nth: 1},
+			{Name: "dec-compiles-as-add", File: "fast/statement.go", Old: "op = token.SUB\n\t} else {\n\t\top = token.ADD", New: "op = token.ADD\n\t} else {\n\t\top = token.SUB"},
+			{Name: "shl-dispatched-to-shr", File: "fast/var_ops.go", Old: "return c.varShlConst(va, val)", New: "return c.varShrConst(va, val)"},
+		},
+	})
+}
+
+func init() {
+	register(&PropDef{ID: "X04", Title: "dev: ints guard", Rules: []func(*Ctx){func(c *Ctx) { ruleIntsGuard(c, "fast", "A4-ints-guard") }}})
 }
